@@ -27,6 +27,6 @@ def replay(path):
     return 0
 
 MANIFEST = dict(engine='api-seq + child processes', level='fault_enumeration',
-  technique='exhaustive enumeration of fault/operation sequences (depth 3/4) against a real single-node network running in a child process that is SIGKILLed and restarted; oracle on the streams served by the real GET handler before and after every fault',
+  technique='exhaustive enumeration of fault/operation sequences (depth 4/5) against a real single-node network running in a child process that is SIGKILLed and restarted; oracle on the streams served by the real GET handler before and after every fault',
   text='Every sequence of posts, retries, forced snapshots, SIGKILL+restart, graceful restart and post-then-SIGKILL up to the depth bound is executed against real raft + real stores + real handlers in a child process; after every operation every session reads its complete stream: acknowledged messages exactly once and in post order, unacknowledged at most once, and the stream after a fault must extend the stream served before it.',
   note='Single node; the multi-process three-node part of the property is outside what bounded exhaustive exploration can decide and is stated as not covered; raft consensus trusted.')
